@@ -308,6 +308,16 @@ def exec_affine(c):
     res = R.registration(R.to_gray(oi), kps, sig_out)
     moved = float(np.nanmax(np.hypot(*(kps - inst.reshape(-1, 2).numpy().astype(np.float64)).T)))
     src = np.array(pts + [(NAN, NAN)], dtype=np.float64)
+    if c["sel"] is not None and not errors:
+        # every keypoint - also one the transform carries OUT of the frame - must follow the same affine map as the image:
+        # the map of the forced corner, anchored on the keypoints that stay inside (whose registration is judged above)
+        M, _ = R.affine_models(H, W, cfg, tuple(c["sel"]))
+        exp = np.array([M(q) for q in src[:-1]])
+        dev = np.abs(kps[:-1] - exp).max(axis=1)
+        inside = (exp[:, 0] >= 0) & (exp[:, 0] <= W - 1) & (exp[:, 1] >= 0) & (exp[:, 1] <= H - 1)
+        if inside.any() and dev[inside].max() <= 0.05 and (~inside).any() and dev[~inside].max() > 0.05:
+            j = int(np.argmax(np.where(~inside, dev, -1.0)))
+            errors.append(f"keypoint {src[j].tolist()} is carried out of the frame by the transform (to {np.round(exp[j], 2).tolist()}) but is returned at {np.round(kps[j], 2).tolist()}: it does not follow the map the in-frame keypoints follow")
     return _result(errors, _with_src(res, src), res["checked"], res["worst"], res["checked"] > 0 and moved > 0.5, _okey(oi.shape, kps), {"moved_px": moved})
 
 
